@@ -162,7 +162,7 @@ def plan(tier, seed):
         for first in CHAINABLE:
             specs.append({"kind": "exhaustive", "n": n, "first": first, "maxlen": maxlen})
     for _ in range(6 if tier == "quick" else 16):
-        specs.append({"kind": "sampled", "count": 4000 if tier == "quick" else 30000})
+        specs.append({"kind": "sampled", "count": 4000 if tier == "quick" else 150000})
     return specs
 
 
